@@ -76,3 +76,13 @@ Qed.
 Definition sa_of (t : fty) : sa := (tsize t, talign t).
 Definition agree_recv (t e : sa) (size align : N) : bool :=
   (fst (js_recv t e) =? size) && (snd (js_recv t e) =? align).
+
+(* ---------- writeOptionToArrayBuffer before its repair ---------- *)
+(* nothing at all was written for an absent value, so is_ok kept what the (not zeroed) buffer held before;
+   Model.write_val is the repaired function (it stores 0), and C08_read_after_write holds for it whatever the memory
+   contained *)
+Definition write_none_unrepaired (m : list N) : list N := m.
+Theorem none_unrepaired_refuted :
+  exists m, length m = 2%nat /\ read_val (FOpt (FPrim 1)) (write_none_unrepaired m) 0 <> VNone /\
+            read_val (FOpt (FPrim 1)) (write_val (FOpt (FPrim 1)) VNone m 0) 0 = VNone.
+Proof. exists [170; 170]. repeat split; vm_compute; congruence. Qed.
